@@ -300,6 +300,7 @@ class Report:
             print("VIOLATION property=%s replay=%s" % (self.prop, path))
             print("  class=%s occurrences=%d detail=%s" % (cls, count, json.dumps(v.get("detail", ""), default=str)[:600]))
             n_reported += 1
+        others = [v for v in others if match_known(self.known, v["property"], v.get("signature", {})) is None]
         if others:
             by = collections.Counter(v["property"] for v in others)
             print("note: this run also met violations of other properties (reported by their own checks): %s" % dict(by))
